@@ -1056,11 +1056,19 @@ static ares_server_t *ares_random_server(ares_channel_t *channel)
 static void server_probe_cb(void *arg, ares_status_t status, size_t timeouts,
                             const ares_dns_record_t *dnsrec)
 {
-  (void)arg;
+  ares_server_t *server = arg;
   (void)status;
   (void)timeouts;
   (void)dnsrec;
-  /* Nothing to do, the logic internally will handle success/fail of this */
+  /* The probe is over, however it ended.  end_query() resets the flag when it
+   * is given the server, but a probe can also be completed by ares_cancel(),
+   * ares_destroy() or an early failure in ares_send_nolock(), none of which
+   * knows the server: without this the server would never be probed again.
+   * The server outlives its probe: a server is only destroyed after the
+   * queries on its connections have been completed. */
+  if (server != NULL) {
+    server->probe_pending = ARES_FALSE;
+  }
 }
 
 /* Determine if we should probe a downed server */
@@ -1117,7 +1125,7 @@ static void ares_probe_failed_server(ares_channel_t      *channel,
   probe_server->probe_pending = ARES_TRUE;
   ares_send_nolock(channel, probe_server,
                    ARES_SEND_FLAG_NOCACHE | ARES_SEND_FLAG_NORETRY,
-                   query->query, server_probe_cb, NULL, NULL);
+                   query->query, server_probe_cb, probe_server, NULL);
 }
 
 static size_t ares_calc_query_timeout(const ares_query_t   *query,
